@@ -220,7 +220,15 @@ struct VCondVar {
 struct Policies {
 	using Threading = eventpp::GeneralThreading<VMutex, VAtomic, VCondVar>;
 };
+#ifdef VQ_HETER
+// the heterogeneous queue has the same synchronisation skeleton (Conc/Queue.lean models both): the same runs
+// are replayed on the same model; calls it does not have (processUntil, takeEvent, peekEvent, DisableQueueNotify)
+// are not generated for this variant.  A second prototype is present so that slots are re-typed.
+#include <eventpp/hetereventqueue.h>
+using Queue = eventpp::HeterEventQueue<int, eventpp::HeterTuple<void(long), void(const std::string &)>, Policies>;
+#else
 using Queue = eventpp::EventQueue<int, void(long), Policies>;
+#endif
 
 static void hookPoint(const char * tag) {
 	// only the queue's markers are micro-steps of Conc/Queue.lean (the callback-list markers are for C03)
@@ -272,7 +280,9 @@ static void runOne(const Run & r) {
 						s.st[t] = T_RUNNING;
 					}
 					long k = 0;
+#ifndef VQ_HETER
 					std::vector<std::unique_ptr<Queue::DisableQueueNotify>> dqn;
+#endif
 					for(auto & c : r.progs[t]) {
 						tl_call = c.c_str();
 						if(c == "enq") { tl_payload = t * 1000 + k; q.enqueue(1, (long)(t * 1000 + k)); ++k; rets[t].push_back("unit"); }
@@ -288,6 +298,7 @@ static void runOne(const Run & r) {
 							});
 							rets[t].push_back(res ? "true" : "false");
 						}
+#ifndef VQ_HETER
 						else if(c == "untE" || c == "untO") {
 							bool stopOdd = c == "untO";
 							bool res = q.processUntil([&](long payload) -> bool {
@@ -309,12 +320,14 @@ static void runOne(const Run & r) {
 							rets[t].push_back(res ? "true" : "false");
 						}
 						else if(c == "peek") { Queue::QueuedEvent ev; rets[t].push_back(q.peekEvent(&ev) ? "true" : "false"); }
+						else if(c == "dqnb") { dqn.emplace_back(new Queue::DisableQueueNotify(&q)); rets[t].push_back("unit"); }
+						else if(c == "dqne") { if(!dqn.empty()) dqn.pop_back(); rets[t].push_back("unit"); }
+#endif
 						else if(c == "clear") { q.clearEvents(); rets[t].push_back("unit"); }
 						else if(c == "empty") rets[t].push_back(q.emptyQueue() ? "true" : "false");
 						else if(c == "wait") { q.wait(); rets[t].push_back("unit"); }
 						else if(c == "waitfor") rets[t].push_back(q.waitFor(std::chrono::milliseconds(1)) ? "true" : "false");
-						else if(c == "dqnb") { dqn.emplace_back(new Queue::DisableQueueNotify(&q)); rets[t].push_back("unit"); }
-						else if(c == "dqne") { if(!dqn.empty()) dqn.pop_back(); rets[t].push_back("unit"); }
+						else { std::lock_guard<std::mutex> lk(s.m); s.log.push_back("note " + std::to_string(t) + " unsupported-call " + c); }
 					}
 					tl_call = "";
 					// objects still alive at the end of the program are destroyed now (not part of the program)
@@ -351,7 +364,12 @@ static void runOne(const Run & r) {
 			std::puts(l.c_str());
 		}
 		std::string ql = "queue :";
+#ifdef VQ_HETER
+		for(auto it = q.queueList.begin(); it != q.queueList.end(); ++it)
+			ql += " " + std::to_string(s.gidOf[std::get<0>(it->template get<Queue::QueuedItem<std::tuple<long>>>().arguments)]);
+#else
 		for(auto it = q.queueList.begin(); it != q.queueList.end(); ++it) ql += " " + std::to_string(s.gidOf[std::get<0>(it->get().arguments)]);
+#endif
 		std::puts(ql.c_str());
 		std::printf("counters %d %d\n", (int)q.queueEmptyCounter.value, (int)q.queueNotifyCounter.value);
 		for(auto & c : consumed) std::printf("consumed %s\n", c.c_str());
